@@ -158,6 +158,9 @@ def main():
             man["not_applicable"].append({"property_id": i, "reason": REASON_PENDING})
     man["engines"][0]["serves_properties"] = sorted(CLAIMED)
     man["hooks"]["source_commits"] = HOOK_COMMITS
+    man["notes"] = ("fix: commits in /repo are listed in known_findings.txt; beyond the listed properties ./check LIFECYCLE | DICTIONARY | "
+                    "LAYERGROUP | CHATLOG run further specification modules against the library (DESIGN.md 11.6; not registered: they decide "
+                    "none of the 18 properties)")
     man["setup_cmd"] = "cd /verif && python3 gen/pi_hex.py && python3 gen/float_tables.py && cd shim && CARGO_NET_OFFLINE=true cargo build --offline --quiet"
     json.dump(man, open(os.path.join(ROOT, "MANIFEST.json"), "w"), indent=1)
 
